@@ -360,6 +360,17 @@ partial def loop (h : IO.FS.Stream) (out : IO.FS.Stream) (hist : Option HistStat
     | some st, none => out.putStrLn ("err NoSnapshot | " ++ digest st)
     | none, _ => out.putStrLn "bad-op"
     loop h out hist bm dyn snap
+  | "H" :: "xsub" :: _ =>
+    -- account substitution: every pinned slot refuses a look-alike (C15 tables); the model's answer is constant
+    match hist with
+    | none => out.putStrLn "bad-op"
+    | some st => out.putStrLn ("rejected | " ++ digest st)
+    loop h out hist bm dyn snap
+  | "H" :: "xliq" :: rest =>
+    match hist with
+    | none => out.putStrLn "bad-op"
+    | some st => out.putStrLn (((xliqLine st rest).getD "bad-op") ++ " | " ++ digest st)
+    loop h out hist bm dyn snap
   | "H" :: "xswap" :: rest =>
     match hist with
     | none => out.putStrLn "bad-op"
